@@ -537,6 +537,10 @@ func (u *Unit) indexAddr(st *State, fr *Frame, in *ssa.IndexAddr) Val {
 	switch xv := x.(type) {
 	case SliceV:
 		u.safety(st, fr, in.Pos(), "index out of range", And(Le(IntLit(0), idx), Lt(idx, xv.Len)))
+		if xv.List == nil && !isByte(xv.Elem) {
+			// nil slice of a non-byte element type: any index is out of range
+			return PtrV{Nil: TFalse, Cell: u.newCell(xv.Elem, u.specMode == 0, false, "nilslice"), Elem: xv.Elem}
+		}
 		if xv.List == nil {
 			return PtrV{Nil: TFalse, Blk: xv.Blk, Idx: Add(xv.Off, idx), Elem: xv.Elem}
 		}
@@ -652,8 +656,12 @@ func (u *Unit) sliceOp(st *State, fr *Frame, in *ssa.Slice) Val {
 			// compiler-built argument array (varargs) or a local array: snapshot
 			// the elements into a list (the array is not written afterwards in
 			// the varargs pattern; other uses are reported)
-			if al, ok := in.X.(*ssa.Alloc); !ok || (al.Comment != "varargs" && al.Comment != "slicelit") {
-				u.limit("slice of a non-byte array in %s", FuncName(fr.fn))
+			if al, ok := in.X.(*ssa.Alloc); !ok || (al.Comment != "varargs" && al.Comment != "slicelit" && al.Comment != "makeslice") {
+				c := "?"
+				if ok {
+					c = al.Comment
+				}
+				u.limit("slice of a non-byte array (%s) in %s", c, FuncName(fr.fn))
 			}
 			cur := u.loadPath(st, xv)
 			tv, ok := cur.(ArrTupleV)
